@@ -1,0 +1,31 @@
+//go:build verif
+// +build verif
+
+// Package verifexport re-exports constructors of packages under proc/internal
+// for the verification harness under /verif. Only compiled with -tags verif.
+package verifexport
+
+import (
+	"github.com/samaritan-proxy/samaritan/host"
+	hcpb "github.com/samaritan-proxy/samaritan/pb/config/hc"
+	"github.com/samaritan-proxy/samaritan/pb/config/service"
+	"github.com/samaritan-proxy/samaritan/proc/internal/hc"
+	"github.com/samaritan-proxy/samaritan/proc/internal/lb"
+)
+
+// Balancer is lb.Balancer.
+type Balancer = lb.Balancer
+
+// NewBalancer is lb.New.
+func NewBalancer(p service.LoadBalancePolicy) Balancer { return lb.New(p) }
+
+// SetRandInt is lb.VerifSetRandInt.
+func SetRandInt(f func() int) func() int { return lb.VerifSetRandInt(f) }
+
+// Monitor is hc.Monitor.
+type Monitor = hc.Monitor
+
+// NewMonitor is hc.NewMonitor with the default logger.
+func NewMonitor(cfg *hcpb.HealthCheck, set *host.Set) (*Monitor, error) {
+	return hc.NewMonitor(cfg, set, nil)
+}
